@@ -98,6 +98,20 @@ def enumerate_cases(tier):
                               glyphs=[glyph])
         rec["strategy"] = "plain"
         yield rec
+    # page_by headings set in the key column's own (large / wide) type: one line at 9 pt, 2-3 lines as rendered
+    for (gfont, gsize), k, nrow, levels in itertools.product(((1, 18), (4, 14), (9, 24), (1, 9)), (2, 3), (7, 10), (1, 2)):
+        heads = []
+        for lvl in range(levels):
+            per = 5 if lvl == 0 else 2
+            vals = []
+            for i in range(15):
+                g = i // per
+                t = metrics.filler(k if g % 2 == 0 else 1, pgen.COL_WIDTH, gfont, gsize, prefix=f"@G{lvl}:v{g}") or f"@G{lvl}:v{g}"
+                vals.append(t)
+            heads.append(vals)
+        rec = pgen.make_table([1] * 15, heads, ndata=2, page_by_levels=levels, header="explicit", nrow=nrow, group_style=(gfont, gsize))
+        rec["strategy"] = "page_by"
+        yield rec
     # a header label of 2 / 3 lines in each column of a 1-4 column table, pages filled exactly
     for ndata, k, nrow in itertools.product((1, 2, 3, 4), (2, 3), (6, 9)):
         for col in range(ndata):
